@@ -6,8 +6,8 @@
 (*          input digests]                                                 *)
 (* The J_* operators of GeoJson.tla are evaluated on the real features of  *)
 (* every option set.  Separately (not a verdict) the real features are     *)
-(* compared with the Model's ConvV(ds, O, variant): a difference from both *)
-(* variants (pinned / with the proposed fix) is a divergence.               *)
+(* compared with the Model's Conv(ds, O) (the variant with fix 626c4a8): a  *)
+(* difference is a divergence.                                              *)
 EXTENDS GeoJson, IOUtils, Json
 
 Lines == ndJsonDeserialize(IOEnv.REC)
@@ -62,8 +62,7 @@ KF(ln, fails) ==
 \*  the results for {}, {IIP} and all four options is as good as comparing all 16)
 Diverging(ln, all) == {ln.got.runs[k].o : k \in {k \in DOMAIN ln.got.runs :
                      /\ (all \/ ToSet(ln.got.runs[k].o) \in {{}, {"IIP"}, Options})
-                     /\ ~FeatsEq(ln.got.runs[k].feats, ConvV(ln.case, ToSet(ln.got.runs[k].o), FALSE))   \* pinned
-                     /\ ~FeatsEq(ln.got.runs[k].feats, ConvV(ln.case, ToSet(ln.got.runs[k].o), TRUE))}}   \* fixed
+                     /\ ~FeatsEq(ln.got.runs[k].feats, Conv(ln.case, ToSet(ln.got.runs[k].o)))}}
 
 Report(i) ==
   LET ln == Lines[i]
